@@ -112,7 +112,16 @@ func c19RunRandom(w *fw.W, idx int) {
 	case 12: // any core name or defun at any syntactic position
 		c19RandomPosition(w, r)
 		w.Count("sampled_position_cases", 1)
-	default: // package movement between a global shadowing definition and the call
+	default:
+		// a stream of its own decides between families 7 and 8, so that the
+		// package movement cases draw what they drew before family 8 existed
+		if w.RNG(idx, "placement-or-movement").Chance(1, 2) {
+			// where the global shadowing definition sits
+			c19RandomPlacement(w, w.RNG(idx, "placement"))
+			w.Count("sampled_placement_cases", 1)
+			break
+		}
+		// package movement between a global shadowing definition and the call
 		c19RandomMove(w, r)
 		w.Count("sampled_pkgmove_cases", 1)
 	}
